@@ -268,6 +268,8 @@ impl MemoryBudget {
         let pool_counter = self.pool_counter(pool);
         let reserved = pool.reserved_size();
 
+        #[cfg(kahflane_turdb_verif)]
+        crate::verif_hooks::sched_point(99);
         let _alloc_guard = self.alloc_lock.lock();
 
         loop {
